@@ -331,6 +331,19 @@ class Model:
                         nm = dict(nm, iso='%s;%d' % (base, v))
                         self.classes.add('other-version-of-a-sibling')
                         break
+        if op.get('xtwin') and 'iso' in parents:
+            # a sibling's name with one more digit at the end of the extension: byte order and ECMA-119 9.3 order (extension
+            # padded with spaces) disagree about which of the two comes first
+            sibs = sorted(p for p, e in self.t['iso'].items() if p != '/' and parent_of(p) == parents['iso'] and e['type'] == 'file' and ';' in p.rsplit('/', 1)[1])
+            for k in range(len(sibs)):
+                base, _, ver = sibs[(op['xtwin'] + k) % len(sibs)].rsplit('/', 1)[1].rpartition(';')
+                stem, dot, ext = base.partition('.')
+                if dot and len(ext) < (3 if self.level == 1 else 8) and len(base) < (12 if self.level == 1 else 28):
+                    cand = '%s.%s%d;%s' % (stem, ext, op['xtwin'] % 10, ver)
+                    if join(parents['iso'], cand) not in self.t['iso']:
+                        nm = dict(nm, iso=cand)
+                        self.classes.add('extension-twin-of-a-sibling')
+                        break
         length = op['len']
         if length > 0xffffffff and self.level < 3 and 'iso' in parents:
             raise Skip('large file below level 3')
